@@ -748,7 +748,8 @@ class Fxp():
             vdtype = val.dtype
         
         # scaling conversion
-        self.scaled = False
+        # (the object keeps its scale and bias whatever the form of this input: a raw code is stored as it is, but read back scaled)
+        self.scaled = bool(self.scale is not None and self.bias is not None and (self.bias != 0 or self.scale != 1))
         if self.scale is not None and self.bias is not None and not raw:
             if self.bias != 0 or self.scale != 1:
                 # do the affine transformation in int64 / float64 (or Python ints): narrow or unsigned integer
